@@ -251,12 +251,15 @@ def run(ctx):
     for n in walk_own(ap.node):
         if isinstance(n, ast.Call) and isinstance(n.func, ast.Attribute) and n.func.attr == "new_placeholder_sp":
             inner = n
-    nps_params = nps.params
+    nps_params = nps.params[1:] if (nps.kind != "staticmethod" and nps.cls is not None) else nps.params   # without cls / self
     flow2 = {}
     if inner is not None:
         for i, a in enumerate(inner.args):
             if isinstance(a, ast.Name) and i < len(nps_params):
                 flow2[a.id] = nps_params[i]
+        for k_ in inner.keywords:
+            if k_.arg and isinstance(k_.value, ast.Name):
+                flow2[k_.value.id] = k_.arg
     stores = {}
     conditional = set()
     npx = _desugar(nps.node)   # `ph.type, ph.orient = a, b` split into single stores
@@ -390,12 +393,48 @@ def run(ctx):
     nmx = _exp13(prog, nm, local_only=True)   # pipelines (`next(n for n in candidates if n not in names)`) read as loops
     idiom = idiom_while_not_in(nm.node) or idiom_while_in(nm.node) or idiom_first_gap(nm.node) \
         or idiom_while_not_in(nmx) or idiom_while_in(nmx) or idiom_first_gap(nmx)   # while-loops and `for n in count(...)`
-    if "//p:cNvPr/@name" in xp and idiom and not _stale_returns(nm):
+    handed_on = False
+    if not idiom:
+        # the scan may live in a helper of another module that is handed the names: read in place
+        try:
+            nmx2 = _exp13(prog, nm, depth=3, local_only=False)
+            idiom = idiom_while_not_in(nmx2) or idiom_while_in(nmx2) or idiom_first_gap(nmx2)
+        except Exception:  # noqa: BLE001
+            nmx2 = None
+        from sa import paths as _P13
+        from sa.inline import resolve_callee as _rc13
+
+        val13 = _P13.value_aliases(nm.node)
+        if not idiom:
+            # `return helper(basename, first, <names>)`: the scan of a helper that loops / returns from inside its loop is judged on
+            # the helper, with the names bound to its parameter
+            for r_ in [x for x in walk_own(nm.node) if isinstance(x, ast.Return) and isinstance(x.value, ast.Call)]:
+                try:
+                    rc_ = _rc13(prog, nm, r_.value, {})
+                except Exception:  # noqa: BLE001
+                    rc_ = None
+                if rc_ is None or not hasattr(rc_[0], "node"):
+                    continue
+                h_ = rc_[0]
+                hps = [a_.arg for a_ in h_.node.args.args][(1 if rc_[1] else 0):]
+                bound = dict(zip(hps, r_.value.args))
+                bound.update({k_.arg: k_.value for k_ in r_.value.keywords if k_.arg})
+                names_p = [p_ for p_, a_ in bound.items() if ".xpath(" in _P13.full(a_, val13)]
+                hid = idiom_while_not_in(h_.node) or idiom_while_in(h_.node) or idiom_first_gap(h_.node)
+                tested = any(isinstance(c_, ast.Compare) and isinstance(c_.ops[0], (ast.In, ast.NotIn)) and dotted(c_.comparators[0]) in names_p
+                             for c_ in ast.walk(h_.node))
+                if hid and names_p and tested and not _stale_returns(h_, prog):
+                    idiom = hid + " (in %s)" % h_.name
+        handed_on = any(isinstance(c_, ast.Call) and any(".xpath(" in _P13.full(a_, val13) for a_ in list(c_.args) + [k_.value for k_ in c_.keywords])
+                        for c_ in walk_own(nm.node))
+    if "//p:cNvPr/@name" in xp and idiom and not _stale_returns(nm, prog):
         ctx.ok("R13.4", "_next_ph_name", sample={"population": "//p:cNvPr/@name", "idiom": idiom})
     elif "//p:cNvPr/@name" in xp and not idiom and any(
             isinstance(n, ast.Compare) and isinstance(n.ops[0], (ast.In, ast.NotIn)) for n in walk_own(nm.node)):
         ctx.error("_BaseShapes._next_ph_name", "the candidate is tested against the names of the part, but not through a recognised "
                   "uniqueness idiom (loop until / while the candidate is in the names)")
+    elif "//p:cNvPr/@name" in xp and not idiom and handed_on:
+        ctx.error("_BaseShapes._next_ph_name", "the names of the part are handed to a helper whose scan is not recognised")
     else:
         ctx.violation("R13.4", "_next_ph_name", "name allocator does not loop until the candidate is absent from all names of the part",
                       file=nm.file, line=nm.line)
